@@ -39,7 +39,6 @@ def parseInt (s : String) : Option Int := s.toInt?
 
 def dyStr (d : Dy) : String := s!"{d.m}/{d.e}"
 
-mutual
 def dumpV : Nat → Heap → V → Except Err String
   | 0, _, _ => .error .fuel
   | f + 1, h, v =>
@@ -54,48 +53,19 @@ def dumpV : Nat → Heap → V → Except Err String
     | .str s => .ok ("S" ++ hex s)
     | .arr id => do
       let b ← getB h id
-      let parts ← dumpL f h b.items
-      pure ("[" ++ ",".intercalate (parts.map (·.2)) ++ "]")
+      let parts ← mapE b.items (fun kv => dumpV f h kv.2)
+      pure ("[" ++ ",".intercalate parts ++ "]")
     | .obj id => do
       let b ← getB h id
-      let parts ← dumpL f h b.items
-      pure ("{" ++ ",".intercalate (parts.map fun kv => hex kv.1 ++ ":" ++ kv.2) ++ "}")
-def dumpL : Nat → Heap → List (Bytes × V) → Except Err (List (Bytes × String))
-  | 0, _, _ => .error .fuel
-  | _ + 1, _, [] => .ok []
-  | f + 1, h, (k, x) :: rest => do
-    let s ← dumpV f h x
-    let r ← dumpL f h rest
-    pure ((k, s) :: r)
-end
+      let parts ← mapE b.items (fun kv => (dumpV f h kv.2).map fun s => hex kv.1 ++ ":" ++ s)
+      pure ("{" ++ ",".intercalate parts ++ "}")
 
 def outOf (r : Except Err String) : String :=
   match r with
   | .ok s => s
   | .error e => errStr e
 
-def slotV (σ : State) (k : Nat) : V := σ.slots.getD k V.none
-
-/-- value of a const path -/
-def cget (σ : State) (p : Nat × List Step) : Except Err V := resolveConst σ.heap (slotV σ p.1) p.2
-
 def b01 (b : Bool) : String := if b then "1" else "0"
-
-/-- replace root variable `k` by `v` (already owning its reference) and destroy the old one -/
-def replaceSlot (σ : State) (k : Nat) (v : V) : Except Err State := do
-  let old := slotV σ k
-  let σ1 := { σ with slots := σ.slots.set k v }
-  let h ← drop σ1.heap [old]
-  pure { σ1 with heap := h }
-
-/-- a mutating op on the Var at mutable path `p`: resolve (auto-vivification), then `f` -/
-def withTarget (guard : Bool) (σ : State) (p : Nat × List Step) (f : State → Loc → Except Err State) : State × String :=
-  match resolveMut guard σ (.slot p.1) p.2 with
-  | (σ1, .error e) => (σ1, errStr e)
-  | (σ1, .ok t) =>
-    match f σ1 t with
-    | .ok σ2 => (σ2, "ok")
-    | .error e => (σ1, errStr e)
 
 def parseDy (a b : String) : Option Dy := do
   let m ← a.toInt?
@@ -109,25 +79,51 @@ def typeOfName (s : String) : Option Nat :=
   | "ARRAY" => some tARRAY | "OBJ" => some tOBJ
   | _ => none
 
-/-- `*this = Var(x)` for a fresh temporary `x` built by `mk`: copy-assign, then the temporary is destroyed -/
-def assignTemp (σ : State) (t : Loc) (mk : Heap → Except Err (Heap × V)) : Except Err State := do
-  let (h1, tmp) ← mk σ.heap
-  let σ2 ← assignV { σ with heap := h1 } t tmp
-  let h3 ← drop σ2.heap [tmp]
-  pure { σ2 with heap := h3 }
-
-/-- scalar value of a typed literal `i 5` / `u 7` / `l 9` / `d m e` / `f m e` / `b 1` / `s hex` -/
-def parseLit (ts : List String) : Option V :=
+/-- typed literal `i 5` / `u 7` / `l 9` / `d m e` / `f m e` / `b 1` / `s hex` / `c hex` -/
+def parseLit (ts : List String) : Option Lit :=
   match ts with
-  | ["i", n] => (parseInt n).map mkInt
-  | ["u", n] => n.toNat?.map mkUnsigned
-  | ["l", n] => (parseInt n).map mkLong
-  | ["d", m, e] => (parseDy m e).map mkDouble
-  | ["f", m, e] => (parseDy m e).map mkFloat
-  | ["b", x] => some (mkBool (x == "1"))
-  | ["s", x] => (unhex x).map mkString
-  | ["c", x] => (unhex x).map mkString
+  | ["i", n] => n.toInt?.map Lit.int
+  | ["u", n] => n.toNat?.map Lit.uns
+  | ["l", n] => n.toInt?.map Lit.long
+  | ["d", m, e] => (parseDy m e).map Lit.dbl
+  | ["f", m, e] => (parseDy m e).map Lit.flt
+  | ["b", x] => some (Lit.bool (x == "1"))
+  | ["s", x] => (unhex x).map Lit.str
+  | ["c", x] => (unhex x).map Lit.str
   | _ => none
+
+def parsePathP (s : String) : Option Path := (parsePath s).map fun p => { root := p.1, steps := p.2 }
+
+def parseSlot (s : String) : Option Nat := do
+  let k ← s.toNat?
+  if k ≥ nslots then none
+  pure k
+
+/-- a mutating op line as a model `Op` -/
+def parseOp (ts : List String) : Option Op :=
+  match ts with
+  | "set" :: ps :: "t" :: [tn] => do pure (.setType (← parsePathP ps) (← typeOfName tn))
+  | "set" :: ps :: lit => do pure (.setLit (← parsePathP ps) (← parseLit lit))
+  | ["setv", ps, qs] => do pure (.setV (← parsePathP ps) (← parsePathP qs))
+  | ["app", ps, qs] => do pure (.app (← parsePathP ps) (← parsePathP qs))
+  | "appl" :: ps :: lit => do pure (.appLit (← parsePathP ps) (← parseLit lit))
+  | ["resize", ps, n] => do pure (.resize (← parsePathP ps) (← n.toNat?))
+  | ["remat", ps, i, n] => do pure (.removeAt (← parsePathP ps) (← i.toNat?) (← n.toNat?))
+  | ["rem", ps, k] => do pure (.removeKey (← parsePathP ps) (← unhex k))
+  | ["clear", ps] => do pure (.clear (← parsePathP ps))
+  | ["ext", ps, qs] => do pure (.extend (← parsePathP ps) (← parsePathP qs))
+  | ["clone", ks, qs] => do pure (.clone (← parseSlot ks) (← parsePathP qs))
+  | ["copy", ks, qs] => do pure (.copy (← parseSlot ks) (← parsePathP qs))
+  | ["drop", ks] => do pure (.drop (← parseSlot ks))
+  | "ctor" :: ks :: "t" :: [tn] => do pure (.ctorType (← parseSlot ks) (← typeOfName tn))
+  | "ctor" :: ks :: "kv" :: [key, qs] => do pure (.ctorKV (← parseSlot ks) (← unhex key) (← parsePathP qs))
+  | "ctor" :: ks :: lit => do pure (.ctorLit (← parseSlot ks) (← parseLit lit))
+  | _ => none
+
+def isMutName (s : String) : Bool :=
+  ["set", "setv", "app", "appl", "resize", "remat", "rem", "clear", "ext", "clone", "copy", "drop", "ctor"].contains s
+
+def cgetP (σ : State) (p : Nat × List Step) : Except Err V := cget σ { root := p.1, steps := p.2 }
 
 def convStr (σ : State) (v : V) : String :=
   let i := match toInt v with | some i => s!"{i}" | none => "u"
@@ -135,10 +131,9 @@ def convStr (σ : State) (v : V) : String :=
     | some (.inl d) => dyStr (Dy.norm d.m d.e)
     | some (.inr _) => "nan"
     | none => "u"
-  let s := match v with
-    | .str s => hex s
-    | .sstr s => hex s
-    | _ => outOf ((toStr (travFuel σ.heap) σ.heap v).map hex)
+  let s := match strOf v with
+    | some s => hex s
+    | none => outOf ((toStr (travFuel σ.heap) σ.heap v).map hex)
   s!"i={i} d={d} b={b01 (toBool v)} s={s}"
 
 def step (σ : State) (ts0 : List String) : State × String :=
@@ -147,156 +142,22 @@ def step (σ : State) (ts0 : List String) : State × String :=
     | [] => (true, ts0)
   let bad := (σ, "bad-op")
   let fuel := travFuel σ.heap
+  if ts == ["reset"] then (σ, "ok") else
   match ts with
-  | ["reset"] => (σ, "ok")
-  -- typed assignments at a mutable path
-  | "set" :: ps :: lit =>
-    match parsePath ps, lit with
-    | some p, ["s", x] => match unhex x with
-      | some s => withTarget guard σ p fun σ t => assignString σ t s
+  | [] => bad
+  | opn :: _ =>
+    if isMutName opn then
+      match parseOp ts with
       | none => bad
-    | some p, ["c", x] => match unhex x with
-      | some s => withTarget guard σ p fun σ t => assignString σ t s
-      | none => bad
-    | some p, ["t", tn] => match typeOfName tn with
-      | some ty => withTarget guard σ p fun σ t => assignTemp σ t fun h => mkType h ty
-      | none => bad
-    | some p, _ => match parseLit lit with
-      | some v => withTarget guard σ p fun σ t => assignScalar σ t v
-      | none => bad
-    | none, _ => bad
-  | ["setv", ps, qs] =>
-    match parsePath ps, parsePath qs with
-    | some p, some q =>
-      withTarget guard σ p fun σ t => do
-        let src ← cget σ q
-        if (← wouldCycle σ.heap (parentOf t) src) then throw .cyclic
-        assignV σ t src
-    | _, _ => bad
-  | ["app", ps, qs] =>
-    match parsePath ps, parsePath qs with
-    | some p, some q =>
-      withTarget guard σ p fun σ t => do
-        let src ← cget σ q
-        let v ← readLoc σ t
-        match v with
-        | .arr id => if (← reaches (travFuel σ.heap) σ.heap id src) then throw .cyclic
-        | .none =>
-          if (← wouldCycle σ.heap (parentOf t) src) then throw .cyclic   -- the new array lives inside the parent
-          -- `v << v` on an undefined v: the argument is a reference to the Var that has just become the array
-          let (sl, _) ← resolveConstLoc σ.heap (some (.slot q.1)) (slotV σ q.1) q.2
-          if sl == some t then throw .cyclic
-        | _ => pure ()
-        appendAt guard σ t src
-    | _, _ => bad
-  | "appl" :: ps :: lit =>
-    -- template operator<<(const T&): `*this << (Var)x`
-    match parsePath ps, parseLit lit with
-    | some p, some v => withTarget guard σ p fun σ t => appendAt guard σ t v
-    | _, _ => bad
-  | ["resize", ps, n] =>
-    match parsePath ps, n.toNat? with
-    | some p, some n => withTarget guard σ p fun σ t => resizeV guard σ t n
-    | _, _ => bad
-  | ["remat", ps, i, n] =>
-    match parsePath ps, i.toNat?, n.toNat? with
-    | some p, some i, some n => withTarget guard σ p fun σ t => removeAtV σ t i n
-    | _, _, _ => bad
-  | ["rem", ps, k] =>
-    match parsePath ps, unhex k with
-    | some p, some k => withTarget guard σ p fun σ t => removeKeyV σ t k
-    | _, _ => bad
-  | ["clear", ps] =>
-    match parsePath ps with
-    | some p => withTarget guard σ p fun σ t => clearV σ t
-    | none => bad
-  | ["ext", ps, qs] =>
-    match parsePath ps, parsePath qs with
-    | some p, some q =>
-      withTarget guard σ p fun σ t => do
-        let src ← cget σ q
-        let v ← readLoc σ t
-        match v, src with
-        | .obj id, .obj sid =>
-          let b ← getB σ.heap id
-          let sb ← getB σ.heap sid
-          for kv in sb.items do
-            if kv.2 != V.none then
-              if (← reaches (travFuel σ.heap) σ.heap id kv.2) then throw .cyclic
-          if guard && decide (b.rc > 1) && decide (b.items.length + extendNewKeys b.items sb.items > b.cap) then
-            throw .sharedGrowth
-        | .none, .obj sid =>
-          if parentOf t == some sid then throw .cyclic    -- the new object is a property of `src` itself
-          let sb ← getB σ.heap sid
-          for kv in sb.items do
-            if kv.2 != V.none then
-              if (← wouldCycle σ.heap (parentOf t) kv.2) then throw .cyclic      -- the new object lives inside the parent
-        | _, _ => pure ()
-        extendV guard σ t src
-    | _, _ => bad
-  -- root variables
-  | ["clone", ks, qs] =>
-    match ks.toNat?, parsePath qs with
-    | some k, some q =>
-      if k ≥ nslots then bad else
-      match (do
-        let src ← cget σ q
-        let (h1, c) ← cloneV fuel σ.heap src
-        replaceSlot { σ with heap := h1 } k c) with
-      | .ok σ1 => (σ1, "ok")
-      | .error e => (σ, errStr e)
-    | _, _ => bad
-  | ["copy", ks, qs] =>
-    match ks.toNat?, parsePath qs with
-    | some k, some q =>
-      if k ≥ nslots then bad else
-      match (do
-        let src ← cget σ q
-        let h1 ← copyV σ.heap src
-        replaceSlot { σ with heap := h1 } k src) with
-      | .ok σ1 => (σ1, "ok")
-      | .error e => (σ, errStr e)
-    | _, _ => bad
-  | ["drop", ks] =>
-    match ks.toNat? with
-    | some k =>
-      if k ≥ nslots then bad else
-      match replaceSlot σ k V.none with
-      | .ok σ1 => (σ1, "ok")
-      | .error e => (σ, errStr e)
-    | none => bad
-  | "ctor" :: ks :: lit =>
-    match ks.toNat? with
-    | some k =>
-      if k ≥ nslots then bad else
-      match lit with
-      | ["t", tn] => match typeOfName tn with
-        | some ty => match (do
-            let (h1, v) ← mkType σ.heap ty
-            replaceSlot { σ with heap := h1 } k v) with
-          | .ok σ1 => (σ1, "ok")
-          | .error e => (σ, errStr e)
-        | none => bad
-      | ["kv", key, qs] => match unhex key, parsePath qs with
-        | some key, some q => match (do
-            -- Var(const String& k, const Var& x): NEW_DIC; set(k, x)
-            let src ← cget σ q
-            let h1 ← copyV σ.heap src
-            let (h2, id) := allocB h1 { emptyBlock true with items := [(key, src)] }
-            replaceSlot { σ with heap := h2 } k (.obj id)) with
-          | .ok σ1 => (σ1, "ok")
-          | .error e => (σ, errStr e)
-        | _, _ => bad
-      | _ => match parseLit lit with
-        | some v => match replaceSlot σ k v with
-          | .ok σ1 => (σ1, "ok")
-          | .error e => (σ, errStr e)
-        | none => bad
-    | none => bad
-  -- queries on const paths
+      | some op =>
+        match applyOp guard σ op with
+        | (σ1, .ok _) => (σ1, "ok")
+        | (σ1, .error e) => (σ1, errStr e)
+    else
+  match ts with
   | ["dump", qs] =>
     match parsePath qs with
-    | some q => (σ, outOf (do let v ← cget σ q; dumpV fuel σ.heap v))
+    | some q => (σ, outOf (do let v ← cgetP σ q; dumpV fuel σ.heap v))
     | none => bad
   | ["dumpall"] =>
     (σ, outOf (do
@@ -305,32 +166,32 @@ def step (σ : State) (ts0 : List String) : State × String :=
   | ["eq", q1, q2] =>
     match parsePath q1, parsePath q2 with
     | some a, some b => (σ, outOf (do
-        let v ← cget σ a
-        let w ← cget σ b
+        let v ← cgetP σ a
+        let w ← cgetP σ b
         let r ← eqV fuel σ.heap v w
         let r2 ← eqV fuel σ.heap w v
         pure (b01 r ++ b01 r2)))
     | _, _ => bad
   | ["tostr", qs] =>
     match parsePath qs with
-    | some q => (σ, outOf (do let v ← cget σ q; let s ← toStr fuel σ.heap v; pure (hex s)))
+    | some q => (σ, outOf (do let v ← cgetP σ q; let s ← toStr fuel σ.heap v; pure (hex s)))
     | none => bad
   | ["len", qs] =>
     match parsePath qs with
-    | some q => (σ, outOf (do let v ← cget σ q; let n ← lengthV σ.heap v; pure s!"{n}"))
+    | some q => (σ, outOf (do let v ← cgetP σ q; let n ← lengthV σ.heap v; pure s!"{n}"))
     | none => bad
   | ["type", qs] =>
     match parsePath qs with
-    | some q => (σ, outOf (do let v ← cget σ q; pure s!"{typeOf v}"))
+    | some q => (σ, outOf (do let v ← cgetP σ q; pure s!"{typeOf v}"))
     | none => bad
   | ["is", qs, tn] =>
     match parsePath qs, typeOfName tn with
-    | some q, some t => (σ, outOf (do let v ← cget σ q; pure (b01 (isT v t))))
+    | some q, some t => (σ, outOf (do let v ← cgetP σ q; pure (b01 (isT v t))))
     | _, _ => bad
   | ["has", qs, k] =>
     match parsePath qs, unhex k with
     | some q, some k => (σ, outOf (do
-        let v ← cget σ q
+        let v ← cgetP σ q
         match v with
         | .obj id =>
           let b ← getB σ.heap id
@@ -342,7 +203,7 @@ def step (σ : State) (ts0 : List String) : State × String :=
   | ["hast", qs, k, tn] =>
     match parsePath qs, unhex k, typeOfName tn with
     | some q, some k, some t => (σ, outOf (do
-        let v ← cget σ q
+        let v ← cgetP σ q
         match v with
         | .obj id =>
           let b ← getB σ.heap id
@@ -356,7 +217,7 @@ def step (σ : State) (ts0 : List String) : State × String :=
     -- Var operator()(key) const: a copy of the property or Var()
     match parsePath qs, unhex k with
     | some q, some k => (σ, outOf (do
-        let v ← cget σ q
+        let v ← cgetP σ q
         match v with
         | .obj id =>
           let b ← getB σ.heap id
@@ -369,8 +230,8 @@ def step (σ : State) (ts0 : List String) : State × String :=
   | ["contains", q1, q2] =>
     match parsePath q1, parsePath q2 with
     | some a, some b => (σ, outOf (do
-        let v ← cget σ a
-        let w ← cget σ b
+        let v ← cgetP σ a
+        let w ← cgetP σ b
         match v with
         | .arr id =>
           let bl ← getB σ.heap id
@@ -380,12 +241,12 @@ def step (σ : State) (ts0 : List String) : State × String :=
     | _, _ => bad
   | ["conv", qs] =>
     match parsePath qs with
-    | some q => (σ, outOf (do let v ← cget σ q; pure (convStr σ v)))
+    | some q => (σ, outOf (do let v ← cgetP σ q; pure (convStr σ v)))
     | none => bad
   | ["rc", qs] =>
     match parsePath qs with
     | some q => (σ, outOf (do
-        let v ← cget σ q
+        let v ← cgetP σ q
         match handleOf v with
         | some id => let b ← getB σ.heap id; pure s!"{b.rc}"
         | none => pure "-"))
@@ -394,7 +255,7 @@ def step (σ : State) (ts0 : List String) : State × String :=
     -- the typed overloads operator==(int|double|float|bool|const char*|const String&)
     match parsePath qs with
     | some q => (σ, outOf (do
-        let v ← cget σ q
+        let v ← cgetP σ q
         match lit with
         | ["i", n] => match parseInt n with
           | some n => pure (b01 (numOf v == some (Dy.ofInt n)))
